@@ -2,48 +2,14 @@ use alloc::borrow::ToOwned;
 use core::{iter::Peekable, str::Chars};
 use ixdtf::parsers::records::UtcOffsetRecordOrZ;
 
-use crate::{
-    builtins::timezone::UtcOffset, utils::iso_days_in_month, TemporalError, TemporalResult,
-    TimeZone,
-};
+use crate::{builtins::timezone::UtcOffset, TemporalError, TemporalResult, TimeZone};
 
-use super::{is_ambiguous_time_string, parse_ixdtf, ParseVariant};
+use super::parse_any_format;
 
 #[inline]
 pub(crate) fn parse_allowed_timezone_formats(s: &str) -> Option<TimeZone> {
-    let (offset, annotation) = if let Ok((offset, annotation)) =
-        parse_ixdtf(s, ParseVariant::DateTime).map(|r| (r.offset, r.tz))
-    {
-        (offset, annotation)
-    } else if let Some((offset, annotation)) = parse_ixdtf(s, ParseVariant::Time)
-        .ok()
-        // `2020-01` is a year-month, not 20:20 at offset -01.
-        .filter(|_| !is_ambiguous_time_string(s))
-        .map(|r| (r.offset, r.tz))
-    {
-        (offset, annotation)
-    // NOTE: the short forms are only read, not validated, by the ixdtf parser.
-    } else if let Some((offset, annotation)) = parse_ixdtf(s, ParseVariant::YearMonth)
-        .ok()
-        .filter(|r| r.date.is_some_and(|d| (1..=12).contains(&d.month)))
-        .map(|r| (r.offset, r.tz))
-    {
-        (offset, annotation)
-    } else if let Some((offset, annotation)) = parse_ixdtf(s, ParseVariant::MonthDay)
-        .ok()
-        .filter(|r| {
-            r.date.is_some_and(|d| {
-                // The reference year of a month-day is a leap year.
-                (1..=12).contains(&d.month)
-                    && (1..=iso_days_in_month(1972, d.month)).contains(&d.day)
-            })
-        })
-        .map(|r| (r.offset, r.tz))
-    {
-        (offset, annotation)
-    } else {
-        return None;
-    };
+    let record = parse_any_format(s)?;
+    let (offset, annotation) = (record.offset, record.tz);
 
     if let Some(annotation) = annotation {
         return TimeZone::from_time_zone_record(annotation.tz).ok();
